@@ -505,6 +505,11 @@ def targeted_setop_family():
                     if dist == "after":
                         pipe.append(Group([C(c) for c in lcols], Take(1)))
                     out.append((f"setop:{width}:{side}:{dist or 'plain'}:{fname}", Prog(pipe)))
+                    if dist and fname in ("none", "null-test"):
+                        # a sort (and a sort + take) after the recognised set operation
+                        key = lcols[0] if dist != "after" else lcols[0]
+                        out.append((f"setop:{width}:{side}:{dist}:{fname}:sort", Prog(pipe + [Sort("-" + key)])))
+                        out.append((f"setop:{width}:{side}:{dist}:{fname}:sort-take", Prog(pipe + [Sort(key), Take(1)])))
         # append next to a distinct: the UNION recogniser (distinct after -> UNION DISTINCT; distinct before must stay on the top only)
         bottom = [From(un), Select(*cols)]
         D = lambda: Group([C(c) for c in cols], Take(1))
@@ -1038,6 +1043,17 @@ def family_c04(tier, seed):
             (f"x:group-agg-before-win:{fname}", [From("t"), Select("a", "b", "c"), Group(["a"], Sort("c"), Derive(tot=s()), W())]),
             (f"x:win-agg-win:{fname}", [From("t"), Select("a", "b"), Sort("a"), Window(Derive(v=Fn("max", b)), rows=(0, 1)), Derive(tot=s()), W()]),
         ]
+    # a window function over the rows that a distinct kept, consumed by a filter and projected away again (the final projection
+    # equal to the distinct columns is what makes the compiler choose SELECT DISTINCT)
+    D2 = lambda: Group(["a", "b"], Take(1))
+    extra += [
+        ("x:distinct-win-filter-select", [From("t"), Select("a", "b"), D2(), Derive(w=s()), Filter(w > b), Select("a", "b")]),
+        ("x:distinct-count-filter-select", [From("t"), Select("a", "b"), D2(), Derive(n=Fn("count", b)), Filter(C("n") > 1), Select("a", "b")]),
+        ("x:distinct-group-win-filter-select", [From("t"), Select("a", "b"), D2(), Group(["a"], Derive(m=Fn("max", b))), Filter(C("m") == b), Select("a", "b")]),
+        ("x:distinct-rownum-filter-select", [From("t"), Select("a", "b"), D2(), Sort("a", "b"), Derive(r=Fn("row_number", C("this"))), Filter(C("r") <= 1), Select("a", "b")]),
+        ("x:distinct-win-filter", [From("t"), Select("a", "b"), D2(), Filter(Fn("min", b) < b)]),
+        ("x:distinct-win", [From("t"), Select("a", "b"), D2(), Derive(w=s())]),
+    ]
     # an order-sensitive window function after a join / append that follows the sort (the left input keeps its order)
     for jn, jt in (("inner", Join("u", "==a")), ("left", Join("u", "==a", side="left")), ("cond", Join("u", (C("this.a") == C("that.a")) & (C("this.b") >= C("that.b"))))):
         extra += [
